@@ -468,7 +468,8 @@ Definition find_arch (s : W) (m : mask) : option nat :=
 Definition kind_of (s : W) (c : nat) : ckind :=
   match nth_error (w_reg s) c with Some k => k | None => {| ck_rel := false; ck_zs := false; ck_triv := true |} end.
 
-Definition create_archetype (m : mask) : MW nat :=
+(** The archetype record itself (storage.createArchetype up to the table). *)
+Definition create_archetype_bare (m : mask) : MW nat :=
   s <- get ;;
   let comps := mk_to_list m (length (w_reg s)) in
   let index := length (w_archs s) in
@@ -482,13 +483,6 @@ Definition create_archetype (m : mask) : MW nat :=
          <| w_version ::= fun v => N.modulo (v + N.of_nat (length comps)) 4294967296 |>
          <| w_relarchs ::= fun l => if Nat.eqb numrel 0 then l else l ++ [index] |>) ;;;
   ret index.
-
-Definition find_or_create_arch (m : mask) : MW nat :=
-  s <- get ;;
-  match find_arch s m with
-  | Some i => ret i
-  | None => create_archetype m
-  end.
 
 Definition new_table (aid : nat) (a : arch) (kinds : list ckind) (cap : nat) (targets : list ent) (rels : list rel) : table :=
   {| t_arch := aid; t_ids := a_comps a; t_kinds := kinds; t_len := 0; t_cap := cap; t_free := false;
@@ -540,6 +534,22 @@ Definition create_table (aid : nat) (rels : list rel) : MW nat :=
   modA aid (fun a => arch_add_table a tid t) ;;;
   cache_add_table tid t (a_mask a) ;;;
   ret tid.
+
+(** createArchetype (as repaired): an archetype without relation components gets its single table
+    together with the archetype, so that no archetype without table is left behind when the calling
+    operation is rejected afterwards. *)
+Definition create_archetype (m : mask) : MW nat :=
+  aid <- create_archetype_bare m ;;
+  a <- getA aid ;;
+  (if Nat.eqb (a_numrel a) 0 then (_ <- create_table aid [] ;; ret tt) else ret tt) ;;;
+  ret aid.
+
+Definition find_or_create_arch (m : mask) : MW nat :=
+  s <- get ;;
+  match find_arch s m with
+  | Some i => ret i
+  | None => create_archetype m
+  end.
 
 Definition get_or_create_table (aid : nat) (rels : list rel) : MW nat :=
   a <- getA aid ;;
